@@ -39,7 +39,21 @@ type World struct {
 	Notes map[string]string
 	// Package-level environment (immutable script, shared between clones).
 	Pkg *PackageEnv
+	// Proc, when set, is the long-lived operator process of this world lineage: clients, the real
+	// dynamic cache and the controller instances live across passes, so whatever the code keeps
+	// in memory between reconciles is kept (nil: every pass runs on freshly built controllers,
+	// as right after a restart). Clones do not inherit it.
+	Proc *Process
 }
+
+// Process holds what survives between passes of a long-lived operator process.
+type Process struct {
+	env   *Env
+	ctrls map[string]reconciler
+}
+
+// LongLived makes all further passes on w run in one long-lived process.
+func (w *World) LongLived() { w.Proc = &Process{} }
 
 // PackageEnv scripts what the Package controller sees outside the API.
 type PackageEnv struct {
@@ -50,12 +64,12 @@ type PackageEnv struct {
 }
 
 type countingPuller struct {
-	env  *PackageEnv
-	pass *Pass
+	env *PackageEnv
+	h   *hook
 }
 
 func (p *countingPuller) Pull(_ context.Context, image string) (*packages.RawPackage, error) {
-	p.pass.Pulls++
+	p.h.pass.Pulls++
 	files, ok := p.env.Images[image]
 	if !ok {
 		return nil, fmt.Errorf("scripted registry: image %q not found", image)
@@ -90,6 +104,9 @@ func (w *World) Clone() *World {
 // Restart models an operator process restart: all in-memory state is lost.
 func (w *World) Restart() {
 	w.Refs = map[schema.GroupVersionKind][]dynamiccache.OwnerReference{}
+	if w.Proc != nil {
+		w.Proc = &Process{}
+	}
 }
 
 // ---- faults ----
@@ -246,6 +263,23 @@ type Env struct {
 	Uncached *kmodel.Client
 	Cache    *dynamiccache.Cache
 	hook     *hook
+	cached   *kmodel.Client // reader behind the dynamic cache
+}
+
+// retarget points a long-lived environment at the next pass.
+func (e *Env) retarget(actor string, pass *Pass, plan *Plan) {
+	h := e.hook
+	h.pass, h.plan, h.dead, h.count = pass, plan, false, 0
+	hide := map[kmodel.Key]bool(nil)
+	if plan != nil && len(plan.HideInList) > 0 {
+		hide = map[kmodel.Key]bool{}
+		for _, k := range plan.HideInList {
+			hide[k] = true
+		}
+	}
+	e.Client.Actor, e.Client.ListHide = actor, hide
+	e.cached.Actor, e.cached.ListHide = actor, hide
+	e.Uncached.Actor = actor
 }
 
 // NewEnv builds clients and the real dynamic cache for one pass over w.
@@ -265,7 +299,7 @@ func (w *World) NewEnv(actor string, pass *Pass, plan *Plan) *Env {
 	dc := dynamiccache.NewCacheForVerif(Scheme, im, w.Refs)
 	unc := *base
 	unc.ListHide = nil
-	return &Env{W: w, Client: base, Uncached: &unc, Cache: dc, hook: h}
+	return &Env{W: w, Client: base, Uncached: &unc, Cache: dc, hook: h, cached: &cacheReader}
 }
 
 // Controller kinds.
@@ -324,7 +358,7 @@ func (e *Env) controller(kind string) reconciler {
 		if e.W.Pkg == nil {
 			panic("world: Package controller needs World.Pkg")
 		}
-		c := pkgctrl.NewPackageController(e.Client, e.Uncached, log, Scheme, &countingPuller{env: e.W.Pkg, pass: e.hook.pass}, nil, e.W.Pkg.HashModifier, nil)
+		c := pkgctrl.NewPackageController(e.Client, e.Uncached, log, Scheme, &countingPuller{env: e.W.Pkg, h: e.hook}, nil, e.W.Pkg.HashModifier, nil)
 		env := e.W.Pkg.Env
 		c.SetEnvironment(&env)
 		return c
@@ -336,8 +370,23 @@ func (e *Env) controller(kind string) reconciler {
 func (w *World) Reconcile(kind string, key types.NamespacedName, plan *Plan) *Pass {
 	w.Passes++
 	p := &Pass{Actor: "pko:" + kind + ":" + key.String(), Ctrl: kind, Key: key}
-	e := w.NewEnv(p.Actor, p, plan)
-	c := e.controller(kind)
+	var e *Env
+	var c reconciler
+	if w.Proc != nil {
+		if w.Proc.env == nil {
+			w.Proc.env = w.NewEnv(p.Actor, p, plan)
+			w.Proc.ctrls = map[string]reconciler{}
+		}
+		e = w.Proc.env
+		e.retarget(p.Actor, p, plan)
+		if c = w.Proc.ctrls[kind]; c == nil {
+			c = e.controller(kind)
+			w.Proc.ctrls[kind] = c
+		}
+	} else {
+		e = w.NewEnv(p.Actor, p, plan)
+		c = e.controller(kind)
+	}
 	func() {
 		defer func() {
 			if r := recover(); r != nil {
